@@ -21,8 +21,13 @@ ASSUMPTIONS = [
     "priority among eligible steps (ORDER BY of SELECT_NEXT_STEP) is not part of the property; the model checks "
     "membership of the implementation's choice in the eligible set and the two leading ORDER BY terms",
     "termination of a whole phase is relative to 'every started command terminates' and the defer cap",
-    "agreement of cached _safe/_implied_need with their definitions after any history is decided by the "
-    "from-scratch oracle on generated sequences, not by a theorem yet",
+    "agreement of cached _safe/_implied_need with their definitions after any history is a theorem under the side "
+    "conditions named in Props/C10 (constant targets between reconciliations, requests the director issues) and is "
+    "sampled by the from-scratch oracle on generated sequences otherwise",
+    "the builder side (job_loop waits on wake_job_loop, the phase ends only when idle) is a theorem about the model "
+    "B/JobLoop.lean, tied to builder.py/hash_queue.py by running the real Builder and HashQueue with a stub "
+    "scheduler/executor on the same event scripts; that define_step/release_dispatch set the wake event is part of "
+    "the `offer` event of that model and is exercised on simulated builds only; asyncio itself is trusted",
 ]
 SCOPES = {"scheduler", "declarations", "propagation", "completion", "startup", "cleanup"}
 
@@ -133,11 +138,16 @@ class Observer:
 
 async def correspond(ctx):
     await kcorr.run(ctx, SCOPES, observers=[Observer])
+    import jobloopcorr
+
+    await jobloopcorr.correspond(ctx)
 
 
 async def search(ctx):
     import corr_kernel as _ck
+    import jobloopcorr
 
+    await jobloopcorr.search(ctx, PID)
     await _ck.run_scenarios(ctx, lambda ctx, run_: Observer(ctx, run_), ["nested_chain", "deferred_wakeup", "amended_consumer_rerun", "hold_recycle", "resource_race", "shrink_resources", "retarget_optional"])
     import contextlib
 
@@ -198,5 +208,9 @@ def flag_discipline(ctx, run_):
 
 async def replay(ctx, detail):
     sig = detail.get("signature", "")
+    if detail.get("detail", detail).get("jobloop"):
+        import jobloopcorr
+
+        return await jobloopcorr.replay(ctx, detail)
     await search(ctx)
     return {"reproduced": any(f.signature == sig for f in ctx.findings), "signature": sig}
